@@ -5,7 +5,7 @@ import itertools
 
 from ..model import AnalysisError, src
 from ..paths import walk_no_defs
-from .. import sa, ctx as ctxmod, rx
+from .. import sa, ctx as ctxmod, rx, abshelp as H
 
 ARITH = {'MULT': 4, 'DIV': 4, 'PLUS': 3, 'MINUS': 3}
 COMPARISONS = ['GREATER', 'LESS', 'GREATEREQ', 'LESSEQ', 'EQUAL', 'NOTEQUAL']
@@ -67,6 +67,8 @@ def run(model, res, tier):
     res.rule('R7', 'checked-in parse table equals the table generated from the source')
     res.rule('R8', 'thorough: LR driver trees equal precedence-climbing trees')
     res.rule('R10', 'the token rules of the operator and parenthesis tokens only hand the token on: no condition, no raise, no state - every lexeme of the formula reaches the parser whatever came before it')
+    res.rule('R11', 'a comparison node evaluates to the relation of the defined order on its two operands (the exact value of the tree; '
+             'shared with C07.R1/R2)')
     res.rule('R9', 'the parse consumes a private token stream: the tree is built from all tokens of the formula even when a callback evaluates another formula (shared with C03.R1)')
     res.assumptions += ['A3 ply 3.11: function tokens are tried in definition order; yacc resolves S/R conflicts by the precedence table']
     res.trusted += ['ply.yacc Grammar/LRGeneratedTable as table generator', 'CPython ast', 're._parser']
@@ -83,6 +85,8 @@ def run(model, res, tier):
     _r7(model, res, g)
     from . import c03
     c03._r1(model, res, c, 'R9')
+    from . import c07
+    H.borrow(res, 'R11', 'comparison kernels', lambda tmp: c07.kernel_rules(model, tmp, c))
     _r10(model, res, g)
     if tier == 'thorough':
         _r8(model, res, g)
